@@ -225,56 +225,62 @@ def call_args(c, fmt):
     return args, kw
 
 
+def _frac_rows(vals, keep):
+    """rows of Fractions (None where ~keep) for a (cells, cols) float array"""
+    return [[Fr(float(x)) if k else None for x, k in zip(vr, kr)] for vr, kr in zip(vals.tolist(), keep.tolist())]
+
+
 def abstract_output(out, fmt, ncells, cols):
     """(cells x cols) of None (missing) | Fraction, and for the plain format Fractions only.
-    Also returns a list of oddities (sentinel not stored, wrong shape ...)."""
+    Also returns a list of oddities (sentinel not stored, wrong shape ...).  Rows that are entirely
+    missing (resp. entirely the plain value) share one list object, so 65 536-cell outputs stay cheap."""
     odd = []
-    if fmt[0] == "pair":
-        if not (isinstance(out, tuple) and len(out) == 2):
-            return None, ["pair format did not return a 2-tuple"]
-        vals, valid = numpy.asarray(out[0]), numpy.asarray(out[1])
-        if vals.size != ncells * cols or valid.size != ncells * cols:
-            return None, ["output has %d cells, expected %d" % (vals.size, ncells * cols)]
-        vals, valid = vals.reshape(ncells, cols), valid.reshape(ncells, cols)
-        if valid.dtype != bool:
-            odd.append("validity dtype %s" % valid.dtype)
-        sent = numpy.asarray(fmt[1]).astype(vals.dtype)
-        cells = []
-        for i in range(ncells):
-            row = []
-            for k in range(cols):
-                if valid[i, k]:
-                    x = float(vals[i, k])
-                    if math.isnan(x) or math.isinf(x):
-                        odd.append("non-finite value %r in a valid cell %d" % (x, i))
-                        row.append(None)
-                    else:
-                        row.append(Fr(x))
-                else:
-                    if not (vals[i, k] == sent):
-                        odd.append("missing cell %d holds %r, not the sentinel %r" % (i, vals[i, k].item(), fmt[1]))
-                    row.append(None)
-            cells.append(row)
-        return cells, odd
-    vals = numpy.asarray(out)
-    if isinstance(out, tuple) or vals.size != ncells * cols:
-        return None, ["output has %s cells, expected %d" % (getattr(vals, "size", "?"), ncells * cols)]
-    vals = vals.reshape(ncells, cols)
-    cells = []
-    for i in range(ncells):
-        row = []
-        for k in range(cols):
-            x = float(vals[i, k])
-            if math.isnan(x):
-                if fmt[0] == "plain":
-                    odd.append("NaN in plain-format cell %d" % i)
-                row.append(None)
-            elif math.isinf(x):
-                odd.append("infinite value in cell %d" % i)
-                row.append(None)
-            else:
-                row.append(Fr(x))
-        cells.append(row)
+    with numpy.errstate(all="ignore"):
+        if fmt[0] == "pair":
+            if not (isinstance(out, tuple) and len(out) == 2):
+                return None, ["pair format did not return a 2-tuple"]
+            vals, valid = numpy.asarray(out[0]), numpy.asarray(out[1])
+            if vals.size != ncells * cols or valid.size != ncells * cols:
+                return None, ["output has %d cells, expected %d" % (vals.size, ncells * cols)]
+            vals, valid = vals.reshape(ncells, cols), valid.reshape(ncells, cols)
+            if valid.dtype != bool:
+                odd.append("validity dtype %s" % valid.dtype)
+                valid = valid.astype(bool)
+            sent = numpy.asarray(fmt[1]).astype(vals.dtype)
+            fvals = vals.astype(float)
+            nonfinite = valid & ~numpy.isfinite(fvals)
+            if nonfinite.any():
+                i = int(numpy.argwhere(nonfinite)[0][0])
+                odd.append("non-finite value %r in a valid cell %d" % (float(fvals[i].flat[0]), i))
+            wrong_sent = ~valid & ~(vals == sent)
+            if wrong_sent.any():
+                i, k = (int(x) for x in numpy.argwhere(wrong_sent)[0])
+                odd.append("missing cell %d holds %r, not the sentinel %r" % (i, vals[i, k].item(), fmt[1]))
+            keep = valid & ~nonfinite
+        else:
+            vals = numpy.asarray(out)
+            if isinstance(out, tuple) or vals.size != ncells * cols:
+                return None, ["output has %s cells, expected %d" % (getattr(vals, "size", "?"), ncells * cols)]
+            fvals = vals.reshape(ncells, cols).astype(float)
+            nan = numpy.isnan(fvals)
+            inf = numpy.isinf(fvals)
+            if fmt[0] == "plain" and nan.any():
+                odd.append("NaN in plain-format cell %d" % int(numpy.argwhere(nan)[0][0]))
+            if inf.any():
+                odd.append("infinite value in cell %d" % int(numpy.argwhere(inf)[0][0]))
+            keep = ~nan & ~inf
+        if fmt[0] == "plain":
+            dflt_mask = keep & (fvals == float(fmt[1]))
+            default = [Fr(fmt[1])] * cols
+        else:
+            dflt_mask = ~keep
+            default = [None] * cols
+        special = numpy.nonzero(~dflt_mask.all(axis=1))[0]
+        cells = [default] * ncells
+        if len(special):
+            rows = _frac_rows(fvals[special], keep[special])
+            for i, row in zip(special.tolist(), rows):
+                cells[i] = row
     return cells, odd
 
 
@@ -351,9 +357,7 @@ def oracle(c, shape=None):
             return Fr(1)
         return Fr(c["w"]) if wk.startswith("scalar") else Fr(c["w"][r])
 
-    out = []
-    for cell in itertools.product(*[range(e) for e in shape]):
-        rows = rows_of.get(cell, [])
+    def line_for(rows):
         line = []
         for k in range(cols):
             if c["kind"] == "count":
@@ -375,7 +379,18 @@ def oracle(c, shape=None):
                     else:
                         v = v / den
             line.append((v, miss))
-        out.append(line)
+        return line
+
+    ncells = 1
+    for e in shape:
+        ncells *= e
+    out = [line_for([])] * ncells          # cells without rows share one line
+    for cell, rows in rows_of.items():
+        if all(0 <= x < e for x, e in zip(cell, shape)):
+            u = 0
+            for x, e in zip(cell, shape):
+                u = u * e + x
+            out[u] = line_for(rows)
     return out
 
 
@@ -648,3 +663,145 @@ def shrink(c, still_fails):
             except Exception:
                 pass
     return c
+
+
+# --------------------------------------------------------------------------
+# shared suite machinery of c03.py / c04.py / c05.py
+# --------------------------------------------------------------------------
+
+CHECK_EXPR = "agg_check_any"
+EXPLAIN_EXPR = "agg_explain"
+EXTRA_BOUNDARY_SHAPES = [(300,), (300, 2), (2, 300), (1000, 5, 5), (257,), (2, 128), (128, 2), (5, 51), (51, 5, 1), (65537,)]
+SHORTCUT = "valid_count with a plain replacement value under propagation (documented shortcut: partial count)"
+
+
+def is_shortcut(c, fmt):
+    return c["kind"] == "valid_count" and fmt[0] == "plain" and not c["ign"]
+
+
+def dtype_sweep_case(rng, dt, shape_mode):
+    """small cube handed to xcube in integer dtype `dt` with values up to the dtype's interesting range"""
+    c = gen_case(rng, nd=rng.choice([1, 2, 2, 3]), N=rng.choice([2, 4, 6, 8]))
+    c["xdtype"] = dt
+    c["shape_mode"] = shape_mode
+    return c
+
+
+def zero_dim_case(rng, kind):
+    c = gen_case(rng, kind=kind, nd=0, N=rng.choice([1, 2, 3, 5, 8]))
+    if kind == "count":
+        c["N_arg"] = c["N"]
+    return c
+
+
+def build_dims(catii, c):
+    return [build_index(catii, a, cm, c["N"]) for a, cm in zip(c["arrs"], c["commons"])]
+
+
+def cells_agree(c, a, b, exact=True):
+    """two abstracted outputs of the same call describe the same cells (model-free, no oracle)"""
+    return compare(c, a, b, exact=exact)
+
+
+class Suite:
+    """Collects real calls: oracle verdicts (found), Gallina literals (lits/metas), statistics."""
+
+    def __init__(self, ctx, catii):
+        self.ctx, self.catii = ctx, catii
+        self.lits, self.metas, self.found = [], [], []
+        self.calls = 0
+        self.dist = {}
+
+    def count(self, key):
+        self.dist[key] = self.dist.get(key, 0) + 1
+
+    def fail(self, c, fmt, which, bad, extra=None):
+        sig = classify(c, which, bad)
+        rec = {"signature": sig, "cube": {"c": "ccube", "x": "xcube"}.get(which, which), "format": list(fmt), "difference": bad, "case": case_json(c)}
+        if extra:
+            rec.update(extra)
+        self.found.append(rec)
+
+    def call(self, c, fmt, dims=None, which="cx", exts=None, to_coq=True, tag=None, dim_commons=None):
+        """Run the case on the real cubes in format fmt; judge with the oracle; add the literal.
+        Returns (rc, rx) (None when not run)."""
+        catii = self.catii
+        if dims is None:
+            dims = build_dims(catii, c)
+        rc = run_cube(catii, c, "c", fmt, dims=dims, exts=exts) if "c" in which else None
+        rx = run_cube(catii, c, "x", fmt, dims=dims, exts=exts) if "x" in which else None
+        self.calls += (rc is not None) + (rx is not None)
+        cs, xs = inferred_shapes(c)
+        explicit = exts is not None or c["shape_mode"] == "explicit"
+        for w, res, inf in (("c", rc, cs), ("x", rx, xs)):
+            if res is None:
+                continue
+            want_shape = None
+            if not explicit:
+                want_shape = inf if dim_commons is None or w == "x" else tuple(
+                    max([v for v in a if v != cm] + [cm]) + 1 for a, cm in zip(c["arrs"], dim_commons))
+            bad = judge(c, w, fmt, res, shape_expected=want_shape)
+            if bad:
+                self.fail(c, fmt, w, bad, {"tag": tag} if tag else None)
+        if to_coq and not c.get("float_stream"):
+            ok_c = rc is None or "shape" in rc
+            ok_x = rx is None or "shape" in rx
+            if ok_c and ok_x and (rc is not None or rx is not None):
+                ents = [(index_entries(d), int(d.common)) for d in dims]
+                cshape = rc["shape"] if rc is not None else (tuple(exts) if exts is not None else tuple(c["exts"]))
+                xshape = rx["shape"] if rx is not None else cshape
+                self.lits.append(case_lit(c, fmt, ents, cshape, xshape, rc, rx))
+                self.metas.append({"case": case_json(c), "format": list(fmt), "tag": tag,
+                                   "dims": [[e, cm] for e, cm in ents]})
+        return rc, rx
+
+
+def conclude(ctx, prop, pr, suite, res, theorems, how):
+    """DESIGN 1.4 verdict protocol: oracle failures are violations with inputs; otherwise a broken
+    proof / model disagreement / failed shard is 'no longer shown'."""
+    found = suite.found
+    ctx.coverage["oracle_failures"] = len(found)
+    ctx.coverage["model_disagreements"] = len(res.failing) if res is not None else None
+    ctx.coverage["coq_case_shards_failed"] = len(res.errors) if res is not None else None
+    if found:
+        by_sig = {}
+        for f in found:
+            by_sig.setdefault(f["signature"], []).append(f)
+        for sig, fs in sorted(by_sig.items()):
+            fs.sort(key=lambda f: (len(f["case"]["exts"]), f["case"]["N"], len(str(f))))
+            ctx.report(sig, fs[0]["difference"] + "  [%s %s, %d failing calls]" % (fs[0]["cube"], fs[0]["case"]["kind"], len(fs)),
+                       {"failing_inputs": fs[:8], "count": len(fs), "how": how})
+        return
+    what = []
+    if not pr["ok"]:
+        what.append("proof obligation no longer checks: Properties/%s.v (%s)" % (prop, ", ".join(theorems)))
+    if res is not None and res.failing:
+        what.append("correspondence suite %s: %d calls where the implementation differs from the models FFuncs/XCube (AggCheck.agg_check_any)" % (prop.lower(), len(res.failing)))
+    if res is not None and res.errors:
+        what.append("correspondence shards failed to evaluate: %s" % (res.errors[0][1][-400:],))
+    if what:
+        ctx.report(prop.lower() + ":not-shown", "; ".join(what), {
+            "proof_log": pr["log"][-2500:] if not pr["ok"] else "",
+            "disagreeing_cases": [dict(suite.metas[i], literal=suite.lits[i][:3000]) for i in (res.failing[:10] if res is not None else [])],
+            "explain": (res.explain if res is not None else "")[:6000],
+            "search": "the exact-Fraction per-cell oracle judged all %d real calls and found no failing input" % suite.calls}, found_input=False)
+
+
+def replay_inputs(ctx, path, rejudge):
+    import json
+    r = json.load(open(path))
+    catii = ctx.import_catii()
+    items = r.get("failing_inputs") or r.get("disagreeing_cases") or []
+    bad = []
+    for it in items:
+        c = case_from_json(it["case"])
+        fmt = tuple(it["format"])
+        b = rejudge(catii, c, fmt, it)
+        print("%s %s N=%s exts=%s weights=%s format=%s -> %s" % (it.get("cube", "?"), c["kind"], c["N"], c["exts"], c["wkind"], fmt, "VIOLATES: " + b if b else "ok"))
+        if b:
+            bad.append(dict(it, difference=b))
+    ctx.evaluations = len(items)
+    ctx.level = "exploration"
+    ctx.nontrivial.update(range(max(2, len(items))))
+    ctx.rule = "replay of recorded failing inputs"
+    return r, bad
